@@ -33,7 +33,9 @@ import (
 	"github.com/siglens/siglens/pkg/hooks"
 	"github.com/siglens/siglens/pkg/querytracker"
 	segmetadata "github.com/siglens/siglens/pkg/segment/metadata"
+	"github.com/siglens/siglens/pkg/segment/reader/microreader"
 	"github.com/siglens/siglens/pkg/segment/structs"
+	sutils "github.com/siglens/siglens/pkg/segment/utils"
 	"github.com/siglens/siglens/pkg/segment/writer"
 	mmeta "github.com/siglens/siglens/pkg/segment/writer/metrics/meta"
 
@@ -374,10 +376,59 @@ func readSegFullMetaFileAndPopulate(segKey string) (*segmetadata.SegmentMicroInd
 	segMeta := sfmData.SegMeta
 	segMeta.ColumnNames = sfmData.ColumnNames
 	segMeta.AllPQIDs = sfmData.AllPQIDs
+	coverBlockSummaries(segMeta)
 
 	smi := segmetadata.ProcessSegmetaInfo(segMeta)
 
 	return smi, nil
+}
+
+// A buffer flush appends the block summary before it replaces the running meta
+// file of the segment. If the process died in between, the block is there and is
+// served, while the meta file still describes the segment without it. The record
+// of an adopted segment has to cover every block summary of the segment: its
+// time range, its records and its columns.
+func coverBlockSummaries(segMeta *structs.SegMeta) {
+	blockSums, allBmi, err := microreader.ReadBlockSummaries(structs.GetBsuFnameFromSegKey(segMeta.SegmentKey), false)
+	if err != nil {
+		log.Errorf("coverBlockSummaries: Error in reading block summaries of %v, err: %v", segMeta.SegmentKey, err)
+		return
+	}
+
+	recCount := 0
+	for _, blockSum := range blockSums {
+		if segMeta.EarliestEpochMS == 0 || blockSum.LowTs < segMeta.EarliestEpochMS {
+			segMeta.EarliestEpochMS = blockSum.LowTs
+		}
+		if blockSum.HighTs > segMeta.LatestEpochMS {
+			segMeta.LatestEpochMS = blockSum.HighTs
+		}
+		recCount += int(blockSum.RecCount)
+	}
+	if recCount <= segMeta.RecordCount {
+		return
+	}
+
+	segMeta.RecordCount = recCount
+	if len(blockSums) > int(segMeta.NumBlocks) {
+		segMeta.NumBlocks = uint16(len(blockSums))
+	}
+	if segMeta.ColumnNames == nil {
+		segMeta.ColumnNames = make(map[string]*structs.ColSizeInfo)
+	}
+	// The meta file has not seen the last block: the block may have brought new
+	// columns, and the value lengths recorded so far need not hold for it.
+	for cname := range allBmi.CnameDict {
+		if cname == config.GetTimeStampKey() {
+			continue
+		}
+		colSizeInfo, ok := segMeta.ColumnNames[cname]
+		if !ok {
+			colSizeInfo = &structs.ColSizeInfo{}
+			segMeta.ColumnNames[cname] = colSizeInfo
+		}
+		colSizeInfo.ConsistentCvalSize = sutils.INCONSISTENT_CVAL_SIZE
+	}
 }
 
 func populateMetricsMetadata(mName string) error {
